@@ -642,6 +642,8 @@ func Main() {
 				runC15(c, budget, res)
 			case "c04":
 				runC04(c, budget, res)
+			case "c05":
+				runC05(c, budget, res)
 			default:
 				panic("unknown mode " + mode)
 			}
